@@ -50,10 +50,8 @@ def eq_judge(line, m, i):
 
 
 def default_feature_sets(tier):
-    # quick: nothing, each wire feature alone, everything - a member gated by the wrong feature shows exactly where the two differ,
-    # and for every ordered pair of features one of the single-feature sets has the first on and the second off
-    if tier == "quick":
-        return [[]] + [[f] for f in core.WIRE_FEATURES] + [core.WIRE_FEATURES]
+    # all eight combinations of the three wire features in both tiers: a member gated by the wrong feature shows where two
+    # features differ, a condition combining two features only where exactly those two are on (both kinds were seeded)
     return core.all_wire_feature_sets()
 
 
